@@ -60,6 +60,16 @@ FLIP = {ast.Lt: ast.Gt, ast.Gt: ast.Lt, ast.LtE: ast.GtE, ast.GtE: ast.LtE, ast.
 NEGOP = {ast.Lt: ast.GtE, ast.GtE: ast.Lt, ast.Gt: ast.LtE, ast.LtE: ast.Gt}
 
 
+def demorgan_chain(t):
+    """not (a < m < b)  ->  m <= a or m >= b"""
+    if isinstance(t, ast.UnaryOp) and isinstance(t.op, ast.Not) and isinstance(t.operand, ast.Compare) and len(t.operand.ops) == 2 \
+            and all(isinstance(o, ast.Lt) for o in t.operand.ops):
+        a, m, b = t.operand.left, t.operand.comparators[0], t.operand.comparators[1]
+        return ast.BoolOp(op=ast.Or(), values=[ast.Compare(left=clone(m), ops=[ast.LtE()], comparators=[clone(a)]),
+                                               ast.Compare(left=clone(m), ops=[ast.GtE()], comparators=[clone(b)])])
+    return t
+
+
 class Search:
     """Value-level structure of one bracket search, read off the *expanded* function (engines/blockeval.py):
     per pass over the loop body each bracket end X becomes `MID if TEST else X` (or the mirror image); locals, hoisted
@@ -67,9 +77,29 @@ class Search:
 
     MID = '__mid__'
 
+    def returns_to_breaks(self, body):
+        """for ..: ..; if C: return V        ->   for ..: ..; if C: break          when the function ends `return W` right after the loop
+        return W                                    return W                        (V is remembered: it must be W, see check_termination)"""
+        for i, st in enumerate(body):
+            if isinstance(st, (ast.For, ast.While)) and i + 1 < len(body) and isinstance(body[i + 1], ast.Return) and body[i + 1].value is not None and i + 2 == len(body):
+                W = body[i + 1].value
+                for blk_owner in ast.walk(st):
+                    for fld in ('body', 'orelse'):
+                        blk = getattr(blk_owner, fld, None)
+                        if not isinstance(blk, list):
+                            continue
+                        for j, x in enumerate(blk):
+                            if isinstance(x, ast.If) and not x.orelse and len(x.body) == 1 and isinstance(x.body[0], ast.Return) and x.body[0].value is not None:
+                                self.early_returns.append((x, x.body[0].value, W))
+                                new = ast.If(test=demorgan_chain(x.test), body=[ast.copy_location(ast.Break(), x.body[0])], orelse=[])
+                                blk[j] = ast.copy_location(new, x)
+                                ast.fix_missing_locations(blk[j])
+        return body
+
     def __init__(self, fi):
         self.fi = fi
-        stmts, _ = single_exit(clone(fi.body), '__ret__')
+        self.early_returns = []
+        stmts, _ = single_exit(self.returns_to_breaks(clone(fi.body)), '__ret__')
         be = BlockEval(fi.qualname, loop_ok=lambda s: True)
         be.run(stmts)
         self.stmts = stmts
@@ -518,6 +548,29 @@ def early_exits(ctx, fi, S, allowed_tests, what):
             if any(isinstance(x, ast.Compare) and len(x.ops) == 1 and isinstance(x.ops[0], (ast.Lt, ast.LtE)) and T(x.comparators[0]) in tiny for x in parts):
                 raise AnalysisError('%s: early result 0.0 when another bound has underflowed to zero (`%s`): whether the search returns exactly 0.0 there '
                                     'too is a floating-point fact outside this analysis' % (fi.name, U(t)[:90]))
+        if not ok and t is not None and pol and U(e) in ('1', '1.0') and isinstance(t, ast.Compare) and len(t.ops) == 1 \
+                and isinstance(t.ops[0], (ast.GtE, ast.Gt)) and T(t.comparators[0]) in ('0', '0.0'):
+            # the clamp taken early: the searched result is min(exp(E) / (order - 1), 1); `1.0 when G >= 0`
+            exps = []
+            for c_ in ast.walk(fi.node):
+                if isinstance(c_, ast.Call) and U(c_.func) in ('math.exp', 'np.exp', 'exp') and len(c_.args) == 1:
+                    a_ = c_.args[0]
+                    if isinstance(a_, ast.Name):
+                        d_ = [x.value for x in ast.walk(fi.node) if isinstance(x, ast.Assign) and len(x.targets) == 1 and U(x.targets[0]) == a_.id]
+                        a_ = d_[0] if len(d_) == 1 else a_
+                    a_ = Replace(lambda n: ast.Name(id=S.MID, ctx=ast.Load()) if isinstance(n, ast.Name) and n.id in S.mid_vars else None).visit(clone(a_))
+                    exps.append(a_)
+            G = t.left
+            if len(exps) == 1 and T(G) == T(exps[0]):
+                raise AnalysisError('%s: the result 1.0 is returned early when the whole exponent `%s` is non-negative; that equals the clamp min(exp(E)/(order-1), 1) only '
+                                    'where order <= 2 or E < 0 at the order the search settles on - a fact about the optimum this analysis does not decide' % (fi.name, U(G)[:60]))
+            if len(exps) == 1 and isinstance(exps[0], ast.BinOp) and isinstance(exps[0].op, ast.Add) and T(G) in (T(exps[0].left), T(exps[0].right)):
+                other_ = exps[0].right if T(G) == T(exps[0].left) else exps[0].left
+                ctx.ob('early-exit', fi, fi.node, False,
+                       '%s: the result 1.0 is returned early when `%s >= 0`, which is only PART of the exponent of the bound: the omitted term `%s` is negative, so the bound '
+                       'can be far below 1 where the test holds (small rho: every eps up to about sqrt(rho)) - a looser value than the optimum of the published bound'
+                       % (fi.name, U(G)[:60], U(other_)[:40]), construct='early result `1.0` when `%s`' % U(t)[:60])
+                continue
         ctx.ob('early-exit', fi, fi.node, ok,
                '%s: a result not computed by the search must be one of the degenerate cases with an exact test (%s) and be 0; found `%s` when `%s%s`'
                % (fi.name, what, U(e), '' if pol else 'not ', U(t) if t is not None else 'always'),
@@ -529,6 +582,14 @@ def check_termination(ctx, fi, S):
     the bracket); a width / tolerance test stops while the answer can still be far (relative to its size) from the bracket ends"""
     from ..normalise import Defs, expand
     lo_hi = {S.true_var, S.false_var}
+    for x_, V_, W_ in getattr(S, 'early_returns', []):
+        same = T(V_) == T(W_)
+        if not same and not (isinstance(V_, ast.Name) and (V_.id in S.mid_vars or V_.id in (S.true_var, S.false_var))):
+            raise AnalysisError('%s: the search loop returns `%s` early, which is neither the result of the search nor one of its bracket values' % (fi.qualname, U(V_)[:40]))
+        ctx.ob('search-termination', fi, x_, same,
+               'an early exit of the search returns `%s`; the result of the search is `%s`%s' % (U(V_), U(W_), '' if same else
+               ' - only that end of the bracket has passed the acceptance test; the midpoint / the other end has not, so the value handed out can be on the wrong side of the bound'),
+               construct='value returned by the early exit of ' + fi.name)
     guarded = set()
     pars = []
     for n in ast.walk(S.loop):
